@@ -42,10 +42,10 @@ fn idx(ids: &[ClockId], id: ClockId) -> i64 {
 }
 
 fn run_case(t: &[&str], rt: &tokio::runtime::Runtime) -> String {
-    let mut p = 0usize;
-    let mut next = || {
-        let s = t[p];
-        p += 1;
+    let p = std::cell::Cell::new(0usize);
+    let next = || {
+        let s = t[p.get()];
+        p.set(p.get() + 1);
         s
     };
     let count: usize = next().parse().unwrap();
@@ -67,7 +67,7 @@ fn run_case(t: &[&str], rt: &tokio::runtime::Runtime) -> String {
     let (action_tx, mut action_rx) = mpsc::channel::<SpawnEvent>(count + 4);
     let mut ids: Vec<ClockId> = Vec::new();
     let mut out: Vec<String> = Vec::new();
-    while p < t.len() {
+    while p.get() < t.len() {
         match next() {
             "T" => {
                 let a = next();
